@@ -741,4 +741,250 @@ theorem parseChem_write {c : Comp} (elems : List Elem) (hill : Bool) (h : WFComp
     addAll_distinct hw.1 (by simp [keys])]
   rfl
 
+/-! ## reading the result: the count at a key -/
+
+/-- sum (from `w`) of the counts of the tokens whose key is exactly `k` -/
+def sumAt (k : Str) (ts : List Tok) (w : Num) : Num :=
+  (ts.filter (fun t => t.1 == k)).foldl (fun a t => Num.add a t.2) w
+
+theorem get?_nil (k : Str) : Comp.get? [] k = none := rfl
+
+theorem get?_cons (a : Str × Num) (d : Comp) (k : Str) :
+    Comp.get? (a :: d) k = if a.1 = k then some a.2 else Comp.get? d k := by
+  by_cases h : a.1 = k <;> simp [Comp.get?, h]
+
+theorem get?_addTo (d : Comp) (k k' : Str) (v : Num) :
+    (addTo d k v).get? k' =
+      if k = k' then some (Num.add ((d.get? k).getD Num.zero) v) else d.get? k' := by
+  induction d with
+  | nil =>
+    by_cases h : k = k' <;> simp [addTo, get?_cons, get?_nil, h]
+  | cons a d ih =>
+    obtain ⟨ak, av⟩ := a
+    by_cases h1 : ak = k
+    · subst h1
+      by_cases h2 : ak = k' <;> simp [addTo, get?_cons, h2]
+    · have h1' : ¬ k = ak := fun e => h1 e.symm
+      by_cases h2 : k = k'
+      · subst h2
+        simp [addTo, get?_cons, h1, ih]
+      · by_cases h3 : ak = k'
+        · subst h3; simp [addTo, get?_cons, h1, h2]
+        · simp [addTo, get?_cons, h1, h2, h3, ih]
+
+theorem get?_addAll (d : Comp) (ts : List Tok) (k : Str) :
+    (addAll d ts).get? k =
+      if (d.get? k).isSome || ts.any (fun t => t.1 == k) then some (sumAt k ts ((d.get? k).getD Num.zero))
+      else none := by
+  induction ts generalizing d with
+  | nil =>
+    cases h : d.get? k <;> simp [addAll, sumAt, h]
+  | cons t ts ih =>
+    rw [addAll_cons, ih, get?_addTo]
+    by_cases h : t.1 = k
+    · simp [h, sumAt]
+    · have hb : (t.1 == k) = false := by simpa using h
+      simp only [h, if_false, sumAt, List.any_cons, hb, Bool.false_or, List.filter_cons, Bool.false_eq_true]
+
+/-- the count the parse result holds at key `k`: present iff some token has exactly that key, and then the sum of
+the counts of those tokens -/
+theorem get?_addAll_nil (ts : List Tok) (k : Str) :
+    (addAll [] ts).get? k = if ts.any (fun t => t.1 == k) then some (sumAt k ts Num.zero) else none := by
+  have := get?_addAll [] ts k
+  simpa only [get?_nil, Option.isSome_none, Bool.false_or, Option.getD_none] using this
+
+/-! ## masses -/
+
+/-- the mass the table gives for a key (0 where `chem_mass` raises) -/
+def em (T : MassTable) (mono : Bool) (k : Str) : Rat :=
+  match elemMass T mono k with
+  | .ok m => m
+  | .error _ => 0
+
+def Known (T : MassTable) (mono : Bool) (k : Str) : Prop := ∃ m, elemMass T mono k = .ok m
+
+def msum (T : MassTable) (mono : Bool) : Comp → Rat
+  | [] => 0
+  | kv :: r => em T mono kv.1 * kv.2.val + msum T mono r
+
+theorem chemMassComp_known {T : MassTable} {mono : Bool} {c : Comp} (h : ∀ kv ∈ c, Known T mono kv.1) :
+    chemMassComp T mono c = .ok (msum T mono c) := by
+  induction c with
+  | nil => rfl
+  | cons a c ih =>
+    obtain ⟨k, v⟩ := a
+    obtain ⟨m, hm⟩ := h (k, v) (by simp)
+    simp [chemMassComp, msum, em, hm, ih (fun kv hkv => h kv (by simp [hkv]))]
+
+theorem msum_dropZeros (T : MassTable) (mono : Bool) (c : Comp) : msum T mono (dropZeros c) = msum T mono c := by
+  induction c with
+  | nil => rfl
+  | cons a c ih =>
+    by_cases hz : a.2.isZero = true
+    · have h0 : a.2.val = 0 := by simpa [Num.isZero] using hz
+      simp [dropZeros, hz, msum, h0, Rat.mul_zero, Rat.zero_add]
+      exact ih
+    · simp only [Bool.not_eq_true] at hz
+      simp only [dropZeros, List.filter_cons, hz, Bool.not_false, if_true, msum]
+      rw [← ih]; rfl
+
+theorem msum_insertBy (T : MassTable) (mono : Bool) (key : Str × Num → Nat) (x : Str × Num) (l : Comp) :
+    msum T mono (insertBy key x l) = em T mono x.1 * x.2.val + msum T mono l := by
+  induction l with
+  | nil => rfl
+  | cons y l ih =>
+    by_cases h : key x < key y
+    · simp [insertBy, h, msum]
+    · simp only [insertBy, h, if_false, msum, ih]
+      rw [← Rat.add_assoc, ← Rat.add_assoc, Rat.add_comm (em T mono y.1 * y.2.val)]
+
+theorem msum_foldl_insertBy (T : MassTable) (mono : Bool) (key : Str × Num → Nat) (l acc : Comp) :
+    msum T mono (l.foldl (fun acc x => insertBy key x acc) acc) = msum T mono l + msum T mono acc := by
+  induction l generalizing acc with
+  | nil => simp [msum, Rat.zero_add]
+  | cons x l ih =>
+    simp only [List.foldl_cons, ih, msum_insertBy, msum]
+    rw [Rat.add_comm (em T mono x.1 * x.2.val) (msum T mono l), Rat.add_assoc]
+
+theorem msum_hillSort (T : MassTable) (mono : Bool) (elems : List Elem) (hill : Bool) (c : Comp) :
+    msum T mono (hillSort elems hill c) = msum T mono c := by
+  unfold hillSort
+  split
+  · simp [sortBy, msum_foldl_insertBy, msum, Rat.add_zero]
+  · rfl
+
+theorem chemMassStr_write {T : MassTable} {mono : Bool} {c : Comp} (elems : List Elem) (hill : Bool)
+    (h : WFComp c) (hk : ∀ kv ∈ c, Known T mono kv.1) :
+    chemMassStr T mono (writeChem elems c [] hill) [] = chemMassComp T mono c := by
+  have hk' : ∀ kv ∈ dropZeros (hillSort elems hill c), Known T mono kv.1 := by
+    intro kv hkv
+    exact hk kv ((hillSort_perm elems hill c).mem_iff.1 (List.mem_filter.1 hkv).1)
+  simp only [chemMassStr, parseChem_write elems hill h, chemMassComp_known hk', chemMassComp_known hk,
+    msum_dropZeros, msum_hillSort]
+
+/-! ## the separated form -/
+
+theorem splitOnAux_run (x : Nat) (s acc rest : Str) (h : ∀ c ∈ s, c ≠ x) :
+    splitOnAux [x] 0 acc (s ++ rest) = splitOnAux [x] 0 (s.reverse ++ acc) rest := by
+  induction s generalizing acc with
+  | nil => rfl
+  | cons c s ih =>
+    have hc : (x == c) = false := by simpa using fun e : x = c => h c (by simp) e.symm
+    have := ih (c :: acc) (fun y hy => h y (by simp [hy]))
+    simp only [List.cons_append, splitOnAux, List.isPrefixOf, hc, Bool.false_and, Bool.false_eq_true,
+      if_false, this]
+    simp
+
+theorem splitOnAux_sep (x : Nat) (acc rest : Str) :
+    splitOnAux [x] 0 acc (x :: rest) = acc.reverse :: splitOnAux [x] 0 [] rest := by
+  simp [splitOnAux, List.isPrefixOf]
+
+theorem splitOn_piece (x : Nat) (s rest : Str) (h : ∀ c ∈ s, c ≠ x) :
+    splitOnAux [x] 0 [] (s ++ x :: rest) = s :: splitOnAux [x] 0 [] rest := by
+  rw [splitOnAux_run x s [] _ h, splitOnAux_sep]; simp
+
+theorem splitOn_last (x : Nat) (s : Str) (h : ∀ c ∈ s, c ≠ x) : splitOnAux [x] 0 [] s = [s] := by
+  have := splitOnAux_run x s [] [] h
+  simp only [List.append_nil] at this
+  rw [this]; simp [splitOnAux]
+
+/-- no character of the key or of the printed count is the separator -/
+def SepFree (x : Nat) (t : Tok) : Prop := (∀ c ∈ t.1, c ≠ x) ∧ (∀ c ∈ t.2.show, c ≠ x)
+
+theorem splitOn_write (x : Nat) (t : Tok) (l : Comp) (h : ∀ kv ∈ t :: l, SepFree x kv) :
+    splitOn [x] (intercalate [x] ((t :: l).map (fun kv => kv.1 ++ [x] ++ kv.2.show))) =
+      (t :: l).flatMap (fun kv => [kv.1, kv.2.show]) := by
+  induction l generalizing t with
+  | nil =>
+    have ht := h t (by simp)
+    simp only [List.map_cons, List.map_nil, intercalate, splitOn, List.append_assoc, List.singleton_append,
+      splitOn_piece x _ _ ht.1, splitOn_last x _ ht.2]
+    simp
+  | cons t' l ih =>
+    have ht := h t (by simp)
+    have := ih t' (fun kv hkv => h kv (by simp at hkv ⊢; exact .inr hkv))
+    simp only [splitOn, List.map_cons] at this ⊢
+    have e : ∀ (a b : Str) (r : List Str), intercalate [x] ((t.1 ++ [x] ++ t.2.show) :: b :: r) =
+        t.1 ++ x :: (t.2.show ++ x :: intercalate [x] (b :: r)) := by
+      intro a b r
+      show (t.1 ++ [x] ++ t.2.show) ++ [x] ++ _ = _
+      simp
+    rw [e [], splitOn_piece x _ _ ht.1, splitOn_piece x _ _ ht.2, this]
+    simp
+
+theorem get?_none_of_not_mem {d : Comp} {k : Str} (h : k ∉ keys d) : d.get? k = none := by
+  induction d with
+  | nil => rfl
+  | cons a d ih =>
+    simp only [keys, List.map_cons, List.mem_cons, not_or] at h
+    have h1 : ¬ a.1 = k := fun e => h.1 e.symm
+    have := ih h.2
+    simp only [Comp.get?] at this ⊢
+    simp [h1, this]
+
+theorem setTo_new {d : Comp} {k : Str} (h : k ∉ keys d) (v : Num) : setTo d k v = d ++ [(k, v)] := by
+  induction d with
+  | nil => simp [setTo]
+  | cons a d ih =>
+    simp only [keys, List.map_cons, List.mem_cons, not_or] at h
+    have h1 : ¬ a.1 = k := fun e => h.1 e.symm
+    simp [setTo, h1, ih h.2]
+
+theorem splitFold_write {d l : Comp} (hn : ∀ kv ∈ l, NumOK kv.2) (hl : (keys l).Nodup)
+    (hd : ∀ k ∈ keys l, k ∉ keys d) :
+    splitFold (l.flatMap (fun kv => [kv.1, kv.2.show])) d = .ok (d ++ l) := by
+  induction l generalizing d with
+  | nil => simp [splitFold]
+  | cons t l ih =>
+    simp only [keys, List.map_cons, List.nodup_cons] at hl
+    have hv := hn t (by simp)
+    have hk : t.1 ∉ keys d := hd t.1 (by simp [keys])
+    simp only [List.flatMap_cons, List.cons_append, List.nil_append, splitFold, hv.isNum, if_true, hv.conv,
+      get?_none_of_not_mem hk, setTo_new hk]
+    rw [ih (fun kv hkv => hn kv (by simp [hkv])) hl.2]
+    · simp
+    · intro k hk1 hk'
+      simp only [keys, List.map_append, List.map_cons, List.map_nil, List.mem_append, List.mem_singleton] at hk'
+      rcases hk' with hk' | rfl
+      · exact hd k (by simp [keys] at hk1 ⊢; exact .inr hk1) hk'
+      · exact hl.1 hk1
+
+theorem wfTok_sepFree {x : Nat} (hx : x = 32 ∨ x = 124) {t : Tok} (h : WFTok t) : SepFree x t := by
+  have hcc : ∀ c, (isDigit c || c == 45 || c == 46) = true → c ≠ x := by
+    intro c hc
+    simp [isDigit] at hc
+    omega
+  have hal : ∀ c, (isAlpha c || isDigit c) = true → c ≠ x := by
+    intro c hc
+    simp [isAlpha, isUpper, isLower, isDigit] at hc
+    omega
+  refine ⟨?_, fun c hc => hcc c (h.2.chars c hc)⟩
+  intro c hc
+  rcases h.1 with hp | hi
+  · exact hal c (by simp [plainKey_alpha hp c hc])
+  · exact hal c (isoKey_alnum hi c hc)
+
+theorem parseChem_write_sep {c : Comp} (elems : List Elem) (hill : Bool) {sep : Str}
+    (hs : sep = [32] ∨ sep = [124]) (h : WFComp c) (hne : dropZeros c ≠ []) :
+    parseChem (writeChem elems c sep hill) sep = .ok (dropZeros (hillSort elems hill c)) := by
+  have hw : WFComp (dropZeros (hillSort elems hill c)) := (h.perm (hillSort_perm elems hill c)).dropZeros
+  obtain ⟨x, rfl, hx⟩ : ∃ x, sep = [x] ∧ (x = 32 ∨ x = 124) := by
+    rcases hs with rfl | rfl
+    · exact ⟨32, rfl, .inl rfl⟩
+    · exact ⟨124, rfl, .inr rfl⟩
+  have hperm : (dropZeros (hillSort elems hill c)).Perm (dropZeros c) :=
+    (hillSort_perm elems hill c).filter _
+  rw [writeChem_sep elems c [x] hill (by simp)]
+  cases hl : dropZeros (hillSort elems hill c) with
+  | nil =>
+    rw [hl] at hperm
+    exact absurd hperm.symm.eq_nil hne
+  | cons t l =>
+    rw [hl] at hw
+    have hsf : ∀ kv ∈ t :: l, SepFree x kv := fun kv hkv => wfTok_sepFree hx (hw.2 kv hkv)
+    have hb : ([x] != ([] : Str)) = true := by simp
+    simp only [parseChem, hb, if_true, splitOn_write x t l hsf]
+    rw [splitFold_write (fun kv hkv => (hw.2 kv hkv).2) hw.1 (by simp [keys])]
+    rfl
+
 end Formula
